@@ -884,25 +884,34 @@ fn cap_mixed_cases(run: &mut Run, rng: &mut Rng) {
 /// gets in again (a known or the new stream arriving first). The 1025th live stream — RTP or RTCP — is
 /// REFUSED by the current code: C04 ("any number of SSRCs") expects it to be accepted, so that refusal is
 /// reported as `roundtrip:{rtp,rtcp}-genuine-rejected:<profile>:rx-cap` = KNOWN FINDING (`rx_cap_witness`).
+/// Likewise the SENDER refuses to protect a 1025th live outgoing stream (`MAX_TX_CONTEXTS`):
+/// `roundtrip:protect-{rtp,rtcp}-failed:<profile>:tx-cap` = KNOWN FINDING (`tx_cap_witness`).
 fn cap_cases(run: &mut Run, rng: &mut Rng) {
     const CAP: u32 = 1024;
     for (pi, prof) in PROFILES.iter().enumerate() {
         for new_first in [false, true] {
             let mut ops = new_pair(rng, pi, prof);
+            // session 2: a second sender holding the same keys as session 0 (whose own transmit table is full
+            // after 1024 streams — `MAX_TX_CONTEXTS`); it carries the streams that probe the RECEIVER's cap
+            let second = ops[0].clone();
+            ops.push(second);
             let (a, b, c) = (0x9000u32, 0x9001u32, 0x9002u32);
             ops.push(Op::Fill(0, 1, 0x5000, CAP - 1));
             let mut want: Vec<(usize, bool, &'static str)> = vec![];     // (op index, accepted?, what)
             let mut slot = 0;
-            let mut rtp = |ops: &mut Vec<Op>, want: &mut Vec<(usize, bool, &'static str)>, slot: &mut usize, ssrc: u32, seq: u16, ok: bool, what: &'static str| {
-                ops.push(Op::ProtectRtp(0, PktSpec::simple(seq, ssrc, vec![seq as u8, 1])));
+            let rtp = |ops: &mut Vec<Op>, want: &mut Vec<(usize, bool, &'static str)>, slot: &mut usize, ssrc: u32, seq: u16, ok: bool, what: &'static str| {
+                ops.push(Op::ProtectRtp(if ssrc == 0x9000 { 0 } else { 2 }, PktSpec::simple(seq, ssrc, vec![seq as u8, 1])));
                 ops.push(Op::UnprotectRtp(1, Src::Slot(*slot))); *slot += 1;
                 want.push((ops.len() - 1, ok, what));
             };
             rtp(&mut ops, &mut want, &mut slot, a, 1, true, "ssrc-number-cap-refused");
             rtp(&mut ops, &mut want, &mut slot, b, 1, true, "RXCAP-RTP");
             rtp(&mut ops, &mut want, &mut slot, a, 2, true, "known-ssrc-refused-at-cap");
-            ops.push(Op::ProtectRtcp(0, Src::Lit(rtcp_packet(rng, c, 12)))); ops.push(Op::UnprotectRtcp(1, Src::Slot(slot))); slot += 1;
+            ops.push(Op::ProtectRtcp(2, Src::Lit(rtcp_packet(rng, c, 12)))); ops.push(Op::UnprotectRtcp(1, Src::Slot(slot))); slot += 1;
             want.push((ops.len() - 1, true, "RXCAP-RTCP"));
+            // the SENDER's cap: session 0 now holds 1024 live transmit contexts; a 1025th outgoing stream (RTP, RTCP)
+            ops.push(Op::ProtectRtp(0, PktSpec::simple(1, 0x9003, vec![1]))); slot += 1; want.push((ops.len() - 1, true, "TXCAP-RTP"));
+            ops.push(Op::ProtectRtcp(0, Src::Lit(rtcp_packet(rng, 0x9004, 12)))); slot += 1; want.push((ops.len() - 1, true, "TXCAP-RTCP"));
             ops.push(Op::Tick(61));
             if new_first {
                 rtp(&mut ops, &mut want, &mut slot, b, 2, true, "new-ssrc-refused-although-all-idle");
@@ -915,10 +924,11 @@ fn cap_cases(run: &mut Run, rng: &mut Rng) {
             let input = script_text(&ops);
             run.case("sessw", &input, &results_text(&res), true);
             run.count("case_kind:rx-cap");
-            if res[2].text() != format!("ok{}", CAP - 1) { run.fail(&format!("cap:fill-not-accepted:{prof}"), &format!("sessw {input}"), &res[2].text()); }
+            if res[3].text() != format!("ok{}", CAP - 1) { run.fail(&format!("cap:fill-not-accepted:{prof}"), &format!("sessw {input}"), &res[3].text()); }
             for (i, ok, what) in want {
                 if res[i].is_ok() != ok {
-                    let sig = match what { "RXCAP-RTP" => format!("roundtrip:rtp-genuine-rejected:{prof}:rx-cap"), "RXCAP-RTCP" => format!("roundtrip:rtcp-genuine-rejected:{prof}:rx-cap"), w => format!("cap:{w}:{prof}") };
+                    let sig = match what { "RXCAP-RTP" => format!("roundtrip:rtp-genuine-rejected:{prof}:rx-cap"), "RXCAP-RTCP" => format!("roundtrip:rtcp-genuine-rejected:{prof}:rx-cap"),
+                        "TXCAP-RTP" => format!("roundtrip:protect-rtp-failed:{prof}:tx-cap"), "TXCAP-RTCP" => format!("roundtrip:protect-rtcp-failed:{prof}:tx-cap"), w => format!("cap:{w}:{prof}") };
                     run.fail(&sig, &format!("sessw {input}"), &format!("op {i} {} → {}", ops[i].text(), res[i].text()));
                 }
             }
